@@ -43,3 +43,60 @@ for meth, mask in (("is_origin", 1), ("is_delegation", 2), ("is_glue", 4), ("is_
         props=["C20"],
         note="flag predicates read exactly their own bit (ORIGIN=1, DELEGATION=2, GLUE=4)",
     )
+
+
+# ----------------------------------------------------------------------------- C20: flags given to a node when it is copied for writing
+from contracts.name import NAME  # noqa: E402
+
+
+class _Deleg:
+    """stub delegation index: the two questions the writable version asks it"""
+
+    def is_glue(self, name):
+        raise NotImplementedError
+
+    def __contains__(self, name):
+        raise NotImplementedError
+
+
+class _ZoneStub:
+    pass
+
+
+DEL = "contracts.zone._Deleg"
+# the index answers are arbitrary but fixed booleans for the name at hand (ghost fields)
+REG.declare_class(DEL, glue=T.bool, cut=T.bool)
+REG.contract(DEL + ".is_glue", params={"self": T.obj(DEL), "name": NAME}, raises=[], returns=T.bool, ensures=["result == self.glue"],
+             status="assumed", props=["C20"], note="stub index: is the name strictly beneath a delegation point")
+REG.contract(DEL + ".__contains__", params={"self": T.obj(DEL), "name": NAME}, raises=[], returns=T.bool, ensures=["result == self.cut"],
+             status="assumed", props=["C20"], note="stub index: is the name a delegation point")
+_BNODE2 = T.obj("dns.btreezone.Node", raw=True, flags=T.range(0, 7))
+REG.contract(
+    "dns.zone.WritableVersion._maybe_cow_with_name",
+    params={"self": T.obj("dns.zone.WritableVersion", raw=True), "name": NAME}, raises=[("builtins.KeyError", "True", "may")],
+    returns=T.fixed(_BNODE2, NAME), status="assumed", props=["C20"],
+    note="ASSUMED here (base class): returns the node to write to - the existing private copy with the flags it has, or a new "
+         "copy with no flags - and the validated name",
+)
+_WV20 = T.obj("dns.btreezone.WritableVersion", raw=True, delegations=T.obj(DEL),
+              zone=T.obj("contracts.zone._ZoneStub", raw=True, relativize=T.bool, origin=NAME))
+from contracts.name import LAB  # noqa: E402
+
+_ISORIGIN = ("((len(result[1].labels) == 0) if self.zone.relativize else "
+             f"(len(result[1].labels) == len(self.zone.origin.labels) and all({LAB('result[1]', 'm')} == {LAB('self.zone.origin', 'm')} "
+             "for m in range(len(result[1].labels)))))")
+REG.contract(
+    "dns.btreezone.WritableVersion._maybe_cow_with_name",
+    params={"self": _WV20, "name": NAME},
+    raises=[("builtins.KeyError", "True", "may")],
+    returns=T.fixed(_BNODE2, NAME),
+    ensures=[
+        # exactly one of the three derived flags is (re)asserted, chosen by content: origin, else beneath a cut, else a cut
+        f"(not {_ISORIGIN}) or result[0].flags % 2 == 1",
+        f"{_ISORIGIN} or (not self.delegations.glue) or (result[0].flags // 4) % 2 == 1",
+        f"{_ISORIGIN} or self.delegations.glue or (not self.delegations.cut) or (result[0].flags // 2) % 2 == 1",
+    ],
+    props=["C20"],
+    note="a node handed out for writing carries ORIGIN if it is the zone origin, else GLUE if the delegation index says it "
+         "is beneath a cut, else DELEGATION if the index lists it as a cut: a copied node never loses its derived flag",
+)
